@@ -34,6 +34,10 @@ Fixpoint same_shape (a b : list vtok) : bool :=
   | _, _ => false
   end.
 
+(* templates without a custom verb (":verb" on the last segment) *)
+Definition no_verbs (tpl : list vtok) : bool :=
+  forallb (fun t => match v_verb t with None => true | Some _ => false end) tpl.
+
 Definition root_tpl (w : service) : list vtok := map (parse_tok false) (tokenize (s_root w)).
 
 Fixpoint is_strict_prefix (a b : list vtok) : bool :=   (* a is a proper prefix of b, shape-wise *)
